@@ -703,6 +703,57 @@ theorem C09_preimage_keys_transparent (ext : Nat → Nat) (m : Mgr) (hD : DynInv
   preimage_keys_transparent ext (siftContract ext) m hD trans target ht hs fa rn qvars q hq hov
     hnl hlv hinj hind
 
+/-- C09 `preimage` under its LITERAL preconditions (repair of F5 / F5b on top of F4d), arguments
+by declared names: pairwise distinct keys, no key is a value — ANY order, ANY renaming (two keys
+may share a value), ANY target (it may depend on the values): the documented preimage
+`Q qvars. trans ∧ rename(target)` of the operands as they were, whether or not a reordering
+request is served. -/
+theorem C09_preimage_literal_transparent (ext : Nat → Nat) (m : Mgr) (hD : DynInv ext m)
+    (trans target : Int) (ht : HeldX ext trans) (hs : HeldX ext target) (fa : Bool)
+    (l : List (String × String)) (qs : List String) (hpre : PreimagePreL l qs m.tbl) :
+    ∃ r m', preimage trans target (l.map fun p => (Key.name p.1, Key.name p.2)) (qs.map Key.name)
+        fa m = (.ok r, m') ∧ DynPostG ext (PreimageDoc fa qs l trans target) m r m' :=
+  preimage_literal_transparent ext (siftContract ext) m hD trans target ht hs fa l qs hpre
+
+/-- the same with keys as names or levels resolving to declared levels at the time of the call -/
+theorem C09_preimage_keys_literal_transparent (ext : Nat → Nat) (m : Mgr) (hD : DynInv ext m)
+    (trans target : Int) (ht : HeldX ext trans) (hs : HeldX ext target)
+    (fa : Bool) (rn : List (Key × Key)) (qvars : List Key) (q : List Nat)
+    (hq : mapToLevelE m.tbl qvars = .ok q)
+    (hov : renameOverlap (resolveRename m.tbl rn) = false)
+    (hnl : renameNonLevel (resolveRename m.tbl rn) = false)
+    (hlv : ∀ p, p ∈ intPairs (resolveRename m.tbl rn) →
+      0 ≤ p.1 ∧ p.1 < (m.nvars : Int) ∧ 0 ≤ p.2 ∧ p.2 < (m.nvars : Int)) :
+    ∃ r m', preimage trans target rn qvars fa m = (.ok r, m') ∧
+      DynPostG ext (PreimageDoc fa (q.map m.tbl.nameOf)
+        (namePairs m.tbl (intPairs (resolveRename m.tbl rn))) trans target) m r m' :=
+  preimage_keys_literal_transparent ext (siftContract ext) m hD trans target ht hs fa rn qvars q hq
+    hov hnl hlv
+
+/-- non-vacuity (`C09_preimage_literal_transparent`): on `exDyn` the target `a ∧ b` DEPENDS on the
+value `b` of the renaming `{a: b}` (the F5 shape): `preimage(a ∧ b, a ∧ b, {a: b}, {b})` -/
+example : PreimagePreL [("a", "b")] ["b"] exDyn.tbl ∧
+    ∃ r m', preimage 4 4 [(.name "a", .name "b")] [.name "b"] false exDyn = (.ok r, m') ∧
+      m'.lastLen.isSome = true ∧ m'.tbl.Mem r := by
+  have hpre : PreimagePreL [("a", "b")] ["b"] exDyn.tbl := by
+    refine ⟨by simp, ?_, ?_, ?_⟩
+    · intro p hp
+      simp only [List.mem_cons, List.not_mem_nil, or_false] at hp
+      subst hp
+      exact ⟨by decide, by decide⟩
+    · intro s hs
+      simp only [List.mem_cons, List.not_mem_nil, or_false] at hs
+      subst hs
+      decide
+    · intro p p' hp hp'
+      simp only [List.mem_cons, List.not_mem_nil, or_false] at hp hp'
+      subst hp hp'
+      decide
+  refine ⟨hpre, ?_⟩
+  obtain ⟨r, m', he, hp⟩ := C09_preimage_literal_transparent exExt exDyn exDyn_dynInv 4 4
+    exExt_held4 exExt_held4 false [("a", "b")] ["b"] hpre
+  exact ⟨r, m', he, by rw [hp.enabled]; rfl, hp.doc.1⟩
+
 /-- non-vacuity (`C09_image_keys_transparent`, `C09_preimage_keys_transparent`, keys as LEVELS):
 on `exDyn` (`a` at level 0, `b` at level 1): `image(a ∧ b, TRUE, {1: 0}, {0})` and
 `preimage(a ∧ b, TRUE, {0: 1}, {1})` -/
